@@ -40,6 +40,32 @@ class C04(Prop):
             a = gen.value(rng)
             b = gen.value(rng) if rng.random() < 0.8 else self._near(rng, a)
             yield Case('cmp', (a, b))
+        for c in self._sites(rng, tier):
+            yield c
+
+    # ---- "sort, issorted, the selectors and the merge joins use this ordering": a sample of their own checks ------------------
+    def _sites(self, rng, tier):
+        import random as _r
+        from . import c13 as _c13, c05 as _c05
+        self._c13 = getattr(self, '_c13', None) or _c13.PROP()
+        self._c05 = getattr(self, '_c05', None) or _c05.PROP()
+        lim13 = 260 if tier == 'quick' else 2500
+        n = 0
+        for c in self._c13.cases(_r.Random(rng.randrange(1 << 30)), 'quick' if tier == 'quick' else 'thorough'):
+            if c.op == 'select' and c.arg[2][0] in ('lt', 'le', 'gt', 'ge', 'rangeopenleft', 'rangeopenright', 'rangeopen',
+                                                     'rangeclosed'):
+                yield c
+                n += 1
+                if n >= lim13:
+                    break
+        lim05 = 60 if tier == 'quick' else 600
+        n = 0
+        for c in self._c05.cases(_r.Random(rng.randrange(1 << 30)), 'quick'):
+            if c.op in ('sort', 'issorted'):
+                yield c
+                n += 1
+                if n >= lim05:
+                    break
 
     def _near(self, rng, a):
         """A value likely to be equal/adjacent to a."""
@@ -53,7 +79,28 @@ class C04(Prop):
             return tuple(l + [gen.scalar(rng)])
         return a
 
+    def _delegate(self, case):
+        from . import c13 as _c13, c05 as _c05
+        if case.op == 'select':
+            self._c13 = getattr(self, '_c13', None) or _c13.PROP()
+            return self._c13
+        if case.op in ('sort', 'issorted', 'sort_spec'):
+            self._c05 = getattr(self, '_c05', None) or _c05.PROP()
+            return self._c05
+        return None
+
+    def spec_case(self, case, impl_obs):
+        d = self._delegate(case)
+        return d.spec_case(case, impl_obs) if d is not None else None
+
+    def valid(self, case):
+        d = self._delegate(case)
+        return d.valid(case) if d is not None else True
+
     def impl(self, case):
+        d = self._delegate(case)
+        if d is not None:
+            return d.impl(case)
         from petl.comparison import Comparable
         a, b = case.arg
         try:
@@ -68,12 +115,18 @@ class C04(Prop):
             return obs_exc(e)
 
     def observe(self, case, obs):
+        d = self._delegate(case)
+        if d is not None:
+            return d.observe(case, obs)
         # the model also returns the reference order (vlt, veq) in positions 5,6
         if obs[0] == 'tu' and len(obs[1]) == 7:
             return ('tu', obs[1][:5])
         return obs
 
     def spec(self, case, impl_obs, model_obs):
+        d = self._delegate(case)
+        if d is not None:
+            return d.spec(case, impl_obs, model_obs)
         # the reference order of spec/Order.v judges the implementation's answers
         if model_obs[0] != 'tu' or len(model_obs[1]) != 7:
             return None
@@ -86,6 +139,8 @@ class C04(Prop):
                 and ge == (not vlt))
 
     def nontrivial(self, case):
+        if case.op != 'cmp':
+            return True
         a, b = case.arg
         return not (a is None and b is None)
 
